@@ -1,5 +1,6 @@
 import SdnsVerif.Spec.Zone
 import SdnsVerif.Model.Nsec
+import SdnsVerif.Model.Nsec3
 /-
 Model of how long a validated denial may live in the shared caches:
 `denialProofExpiry` and the per-RRset entries of `denialProofCache.extract`
@@ -9,7 +10,7 @@ admissions / clock advances / lookups over them.  Core Lean only.
 Time is `Int` seconds; TTLs are `Nat` seconds.
 -/
 namespace SdnsVerif.Model.ProofExpiry
-open SdnsVerif.Spec.Zone SdnsVerif.Model.Nsec
+open SdnsVerif.Spec.Zone SdnsVerif.Model.Nsec SdnsVerif.Model.Nsec3
 
 /-- one RRSIG over an RRset of the bundle: header TTL, original TTL, absolute expiration. -/
 structure Sig where
@@ -46,6 +47,13 @@ structure RRSet where
   sigs : List Sig
 deriving Repr
 
+/-- an NSEC3 RRset of a bundle (the record as the evaluator sees it). -/
+structure RRSet3 where
+  rr : Nsec3
+  ttl : Nat
+  sigs : List Sig
+deriving Repr
+
 structure Bundle where
   zone : Name
   nx : Bool               -- NXDOMAIN (else NODATA)
@@ -55,6 +63,12 @@ structure Bundle where
   soaSigs : List Sig
   cut : Option Int
   sets : List RRSet
+  sets3 : List RRSet3 := []
+deriving Repr
+
+structure ProofEntry3 where
+  rr : Nsec3
+  expires : Int
 deriving Repr
 
 structure ProofEntry where
@@ -66,6 +80,7 @@ structure ZoneState where
   zone : Name
   soaExpires : Int
   entries : List ProofEntry
+  entries3 : List ProofEntry3 := []
 deriving Repr
 
 structure CutEntry where
@@ -89,59 +104,90 @@ def commonExpiry (st : State) (b : Bundle) : Option Int :=
 def setExpiry (st : State) (b : Bundle) (s : RRSet) : Option Int :=
   proofExpiry st.now st.proofMax b.cut ([b.soaTtl] ++ [s.ttl]) (some b.soaMin) (b.soaSigs ++ s.sigs)
 
+def setExpiry3 (st : State) (b : Bundle) (s : RRSet3) : Option Int :=
+  proofExpiry st.now st.proofMax b.cut ([b.soaTtl] ++ [s.ttl]) (some b.soaMin) (b.soaSigs ++ s.sigs)
+
+def upsert3 (es : List ProofEntry3) (e : ProofEntry3) : List ProofEntry3 :=
+  (es.filter fun x => x.rr.owner != e.rr.owner) ++ [e]
+
 def upsert (es : List ProofEntry) (e : ProofEntry) : List ProofEntry :=
   (es.filter fun x => x.nsec.owner != e.nsec.owner) ++ [e]
 
 /-- `denialProofCache.recordWithKind`: all-or-nothing; same-owner entries are replaced. -/
 def admitProof (st : State) (b : Bundle) : State :=
-  match commonExpiry st b, b.sets.mapM (fun s => (setExpiry st b s).map fun e => ({ nsec := s.nsec, expires := e } : ProofEntry)) with
-  | some ce, some es =>
-    if es.isEmpty then st else
-    let old := (st.zones.find? fun z => z.zone == b.zone).map (·.entries) |>.getD []
-    let z : ZoneState := { zone := b.zone, soaExpires := ce, entries := es.foldl upsert old }
+  -- a bundle carries exactly one denial mechanism (`sawNSEC == sawNSEC3` is refused)
+  if b.sets.isEmpty == b.sets3.isEmpty then st else
+  match commonExpiry st b,
+        b.sets.mapM (fun s => (setExpiry st b s).map fun e => ({ nsec := s.nsec, expires := e } : ProofEntry)),
+        b.sets3.mapM (fun s => (setExpiry3 st b s).map fun e => ({ rr := s.rr, expires := e } : ProofEntry3)) with
+  | some ce, some es, some es3 =>
+    let oldz := st.zones.find? fun z => z.zone == b.zone
+    let old := oldz.map (·.entries) |>.getD []
+    let old3 := oldz.map (·.entries3) |>.getD []
+    let z : ZoneState := { zone := b.zone, soaExpires := ce, entries := es.foldl upsert old, entries3 := es3.foldl upsert3 old3 }
     { st with zones := (st.zones.filter fun x => x.zone != b.zone) ++ [z] }
-  | _, _ => st
+  | _, _, _ => st
 
 /-- `nxDomainCutCache.record`: NXDOMAIN only, bounded by every record of the retained proof. -/
 def admitCut (st : State) (b : Bundle) : State :=
   if !b.nx || b.subject == b.zone || !nameInZone b.subject b.zone then st else
-  match proofExpiry st.now st.cutMax b.cut ([b.soaTtl] ++ b.sets.map (·.ttl)) (some b.soaMin)
-      (b.soaSigs ++ b.sets.flatMap (·.sigs)) with
+  -- `nxDomainCutProof`: never over an Opt-Out NSEC3
+  if b.sets3.any (fun s => s.rr.flags % 2 == 1) then st else
+  match proofExpiry st.now st.cutMax b.cut ([b.soaTtl] ++ b.sets.map (·.ttl) ++ b.sets3.map (·.ttl)) (some b.soaMin)
+      (b.soaSigs ++ b.sets.flatMap (·.sigs) ++ b.sets3.flatMap (·.sigs)) with
   | some e => { st with cuts := (st.cuts.filter fun c => c.denied != b.subject) ++ [{ denied := b.subject, expires := e }] }
   | none => st
 
 def admitBundle (st : State) (b : Bundle) : State := admitCut (admitProof st b) b
 
-/-- `denialProofEvaluate` for one zone: SOA live, then the RFC 8198 evaluator
-over the live NSEC RRsets. -/
-def lookupProof (st : State) (q : Name) (t : Nat) : Option Rcode :=
+/-- `denialProofEvaluate` for one zone (its SOA entry being live): the RFC 8198
+evaluator over the live NSEC RRsets first, then over the live NSEC3 ring. -/
+def evalZone (now : Int) (H : HashFn) (z : ZoneState) (q : Name) (t : Nat) : Option Rcode :=
+  let live := (z.entries.filter fun e => now < e.expires).map (·.nsec)
+  let viaNsec := if live.isEmpty then none else
+    match evaluateAggressiveNSEC q t 1 z.zone live with
+    | .ok (rc, _) => some rc
+    | .error _ => none
+  match viaNsec with
+  | some rc => some rc
+  | none =>
+    let live3 := (z.entries3.filter fun e => now < e.expires).map (·.rr)
+    if live3.isEmpty then none else
+    match evaluateAggressiveNSEC3 H q t 1 z.zone live3 with
+    | .ok (rc, _) => some rc
+    | .error _ => none
+
+def lookupProofH (st : State) (H : HashFn) (q : Name) (t : Nat) : Option Rcode :=
   let cand := (st.zones.filter fun z => nameInZone q z.zone)
   -- most specific zone first, as denialProofAncestors yields them
   let rec go : List ZoneState → Option Rcode
     | [] => none
     | z :: rest =>
       if st.now < z.soaExpires then
-        match evaluateAggressiveNSEC q t 1 z.zone ((z.entries.filter fun e => st.now < e.expires).map (·.nsec)) with
-        | .ok (rc, _) => some rc
-        | .error _ => go rest
+        match evalZone st.now H z q t with
+        | some rc => some rc
+        | none => go rest
       else go rest
   go (cand.mergeSort fun a b => a.zone.length ≥ b.zone.length)
+
+def lookupProof (st : State) (q : Name) (t : Nat) : Option Rcode := lookupProofH st (fun _ => none) q t
 
 /-- what a lookup retires (`pruneZoneLocked`): a candidate zone whose SOA
 entry has expired is dropped whole (its still-live RRsets too); otherwise its
 expired RRsets are dropped; candidates after the one that answered are not
 examined.  Only ever removes state. -/
-def pruneOnLookup (st : State) (q : Name) (t : Nat) : State :=
+def pruneOnLookup (st : State) (q : Name) (t : Nat) (H : HashFn := fun _ => none) : State :=
   let cand := (st.zones.filter fun z => nameInZone q z.zone).mergeSort fun a b => a.zone.length ≥ b.zone.length
   let rec go : List ZoneState → List ZoneState → List ZoneState
     | zones, [] => zones
     | zones, z :: rest =>
       if st.now < z.soaExpires then
         let live := z.entries.filter fun e => st.now < e.expires
-        let zones' := zones.map fun x => if x.zone == z.zone then { x with entries := live } else x
-        match evaluateAggressiveNSEC q t 1 z.zone (live.map (·.nsec)) with
-        | .ok _ => zones'
-        | .error _ => go zones' rest
+        let live3 := z.entries3.filter fun e => st.now < e.expires
+        let zones' := zones.map fun x => if x.zone == z.zone then { x with entries := live, entries3 := live3 } else x
+        match evalZone st.now H z q t with
+        | some _ => zones'
+        | none => go zones' rest
       else go (zones.filter fun x => x.zone != z.zone) rest
   { st with zones := go st.zones cand }
 
